@@ -224,6 +224,39 @@ def r_cert(A, ctx, scope, rule="R-CERT", clauses=("max", "all", "intercept")):
                                                    for t, lab, _ in cfg.facts_at(d))
                                     if not fi_false:
                                         ok, where = True, a
+                # the intercept gradient enters through its absolute value, taken entrywise
+                # BEFORE any reduction over tasks: abs(max(step)) certifies steps that are all
+                # non-positive with one of them ~0
+                step_names = set()
+                for st in ast.walk(f.node):
+                    if isinstance(st, ast.Assign) and isinstance(st.targets[0], ast.Name) and any(
+                            _slot_call(flow, f, cc, "DATAFIT", {"intercept_update_step", "raw_grad"})
+                            for cc in ast.walk(st.value)):
+                        step_names.add(st.targets[0].id)
+                for d in sorted(slice_nodes):
+                    a = cfg.nodes[d].ast
+                    if a is None or not isinstance(a, (ast.Assign, ast.AugAssign)):
+                        continue
+                    for c in ast.walk(a.value):
+                        if isinstance(c, ast.Call) and ast.unparse(c.func) in ("np.abs", "abs", "np.absolute") and c.args:
+                            for inner in ast.walk(c.args[0]):
+                                red = isinstance(inner, ast.Call) and (
+                                    ast.unparse(inner.func) in ("np.max", "np.min", "np.amax", "np.amin")
+                                    or (isinstance(inner.func, ast.Attribute) and inner.func.attr in ("max", "min")
+                                        and not ast.unparse(inner.func).startswith("np."))
+                                    or (ast.unparse(inner.func) in ("max", "min") and len(inner.args) == 1))
+                                if not red:
+                                    continue
+                                touches = (names_in(inner) & step_names) or any(
+                                    _slot_call(flow, f, cc, "DATAFIT", {"intercept_update_step", "raw_grad"})
+                                    for cc in ast.walk(inner))
+                                if touches:
+                                    n += 1
+                                    ctx.ob(rule, f"{f.fq}::intercept-abs-order", False,
+                                           what=f"`{norm_src(c)}` reduces the signed intercept steps before "
+                                                "taking the absolute value: when every step is <= 0 and one is "
+                                                "~0 the intercept violation is reported as ~0 and the solver "
+                                                "exits with non-optimal intercepts", loc=loc(f, a))
                 ctx.ob(rule, f"{f.fq}::intercept-term", ok,
                        what="solver fits an intercept (w has n_features + fit_intercept "
                             "entries) but the tolerance test does not include the "
